@@ -578,8 +578,10 @@ func (x *Exec) applyContract(st *State, fr *Frame, callee *ssa.Function, con *Co
 			for k, v := range x.params {
 				aenv.vars[k] = v
 			}
+			aenv.pinned = map[string]Val{}
 			for i, p := range callee.Params {
 				aenv.vars[p.Name()] = args[i]
+				aenv.pinned[p.Name()] = args[i]
 			}
 			g := x.evalSpec(ba.C.E, aenv)
 			lbl := ba.C.Label
@@ -604,8 +606,10 @@ func (x *Exec) applyContract(st *State, fr *Frame, callee *ssa.Function, con *Co
 			for k, v := range x.params {
 				uenv.vars[k] = v
 			}
+			uenv.pinned = map[string]Val{}
 			for i, p := range callee.Params {
 				uenv.vars[p.Name()] = args[i]
+				uenv.pinned[p.Name()] = args[i]
 			}
 			x.useLemma(st, uenv, bu.E, x.con.Props)
 		}
